@@ -16,6 +16,15 @@ type originWalker struct {
 	outS map[ssa.Value]bool
 	// interprocedural expansion switches
 	throughParams bool
+	// calls of these functions are roots (a factory returns a fresh value per call)
+	stopAt map[*ssa.Function]bool
+}
+
+// OriginsStopAt is OriginsIP, except that a call of one of the given functions is a root itself.
+func (p *Prog) OriginsStopAt(v ssa.Value, stop map[*ssa.Function]bool) []ssa.Value {
+	w := &originWalker{p: p, seen: map[ssa.Value]bool{}, outS: map[ssa.Value]bool{}, throughParams: true, stopAt: stop}
+	w.walk(v, 0)
+	return w.out
 }
 
 // Origins returns the root values v may originate from: MakeChan/Alloc-free roots such as
@@ -110,6 +119,15 @@ func (w *originWalker) walk(v ssa.Value, d int) {
 		w.root(v)
 	case *ssa.Extract:
 		if call, ok := t.Tuple.(*ssa.Call); ok {
+			if f := StaticCallee(&call.Call); f != nil && w.stopAt[f] {
+				w.root(call)
+				return
+			}
+			// a thin forwarding adapter is as opaque as the interface call it wraps
+			if f := StaticCallee(&call.Call); f != nil && f.Signature.Recv() != nil && f.Blocks != nil && isPlainForwarder(f, f.Name()) {
+				w.root(v)
+				return
+			}
 			if f := StaticCallee(&call.Call); f != nil && f.Blocks != nil && f.Pkg != nil && IsRepoPkg(f.Pkg.Pkg) {
 				for _, b := range f.Blocks {
 					for _, in := range b.Instrs {
@@ -123,6 +141,10 @@ func (w *originWalker) walk(v ssa.Value, d int) {
 		}
 		w.root(v)
 	case *ssa.Call:
+		if f := StaticCallee(&t.Call); f != nil && w.stopAt[f] {
+			w.root(t)
+			return
+		}
 		if f := StaticCallee(&t.Call); f != nil && f.Blocks != nil && f.Pkg != nil && IsRepoPkg(f.Pkg.Pkg) && f.Signature.Results().Len() == 1 {
 			for _, b := range f.Blocks {
 				for _, in := range b.Instrs {
@@ -211,6 +233,30 @@ func (p *Prog) StoresToField(f *types.Var) []ssa.Value {
 						if fa, ok := st.Addr.(*ssa.FieldAddr); ok {
 							if fo := fieldObj(fa); fo != nil {
 								fieldStoreCache[fo] = append(fieldStoreCache[fo], st.Val)
+							}
+						}
+					}
+					// a helper that fills the field through a pointer: h(..., &x.f, ...) with `*param = v` inside h
+					if c, ok := in.(*ssa.Call); ok {
+						h := StaticCallee(&c.Call)
+						if h == nil || h.Blocks == nil || h.Pkg == nil || !IsRepoPkg(h.Pkg.Pkg) {
+							continue
+						}
+						for i, a := range c.Call.Args {
+							fa, isFA := a.(*ssa.FieldAddr)
+							if !isFA || i >= len(h.Params) {
+								continue
+							}
+							fo := fieldObj(fa)
+							if fo == nil {
+								continue
+							}
+							for _, hb := range h.Blocks {
+								for _, hi := range hb.Instrs {
+									if st, isS := hi.(*ssa.Store); isS && st.Addr == ssa.Value(h.Params[i]) {
+										fieldStoreCache[fo] = append(fieldStoreCache[fo], st.Val)
+									}
+								}
 							}
 						}
 					}
